@@ -1148,6 +1148,8 @@ func (c *Ctx) ruleChan(rule string) {
 				}
 				k := key(rule, c.M.Key(fn), kind+" on a channel from "+ro.clientT.Obj().Name()+"."+ro.sigTable)
 				switch {
+				case !held && c.sigSitesConfined():
+					c.R.Ok(rule, k, c.M.InstrPos(in), kind+" on a caller's signal channel", "not under the mutex, but every send and close of these channels is confined to the read loop's goroutine (R-SIGCHAN): they are sequential")
 				case !held:
 					c.R.Bad(rule, k, c.M.InstrPos(in), kind+" on a signal channel outside the client mutex", "the channel is fetched from the guarded table; without the lock the close in sendExecutionResult can interleave: send on closed channel")
 				case kind == "close":
@@ -2045,4 +2047,63 @@ func (c *Ctx) ruleSigChan(rule string) {
 		}
 	}
 	c.R.Floor(rule, 2)
+}
+
+// sigSitesConfined: every send on / close of a channel of the client's signal table sits in a function that is reachable
+// from the read loop and from nowhere else (see R-SIGCHAN).
+func (c *Ctx) sigSitesConfined() bool {
+	ro := c.roles()
+	if !ro.ok || ro.readLoop == nil || ro.sigTable == "" {
+		return false
+	}
+	inTree := c.M.Reachable([]*ssa.Function{ro.readLoop}, nil)
+	var entered []*ssa.Function
+	for _, fn := range c.M.Funcs {
+		if inTree[fn] {
+			continue
+		}
+		for _, e := range c.M.Edges(fn) {
+			if inTree[e.To] && e.To != ro.readLoop {
+				entered = append(entered, e.To)
+			}
+		}
+	}
+	shared := c.M.Reachable(entered, nil)
+	fromTable := func(v ssa.Value) bool {
+		for i := 0; i < 4; i++ {
+			switch x := v.(type) {
+			case *ssa.Extract:
+				v = x.Tuple
+			case *ssa.Lookup:
+				return strings.HasSuffix(c.M.ValPath(x.X), "."+ro.sigTable)
+			default:
+				return false
+			}
+		}
+		return false
+	}
+	n := 0
+	for _, fn := range c.M.SortedFuncs(c.scopePkg("atp")) {
+		for _, b := range fn.Blocks {
+			for _, in := range b.Instrs {
+				site := false
+				switch x := in.(type) {
+				case *ssa.Send:
+					site = fromTable(x.Chan)
+				case *ssa.Call:
+					if bi, ok := x.Call.Value.(*ssa.Builtin); ok && bi.Name() == "close" && len(x.Call.Args) == 1 {
+						site = fromTable(x.Call.Args[0])
+					}
+				}
+				if !site {
+					continue
+				}
+				n++
+				if !inTree[fn] || shared[fn] {
+					return false
+				}
+			}
+		}
+	}
+	return n > 0
 }
